@@ -6,49 +6,36 @@ From Norad.Proofs Require Import FsP SaveP.
 Open Scope string_scope.
 Open Scope list_scope.
 
-(** ** The full statement, and why the code as it is does not meet it (finding F8) *)
+(** ** Paths
 
-(** "Nothing outside the target directory is created, modified or removed", for every font. *)
-Definition C09_full : Prop :=
-  ∀ (f : font_abs) (t : path) (m : sfs) (o : outcome) (m' : sfs) (p : path),
-    wf_fs m → save f t m = (o, m') → ¬ under t p → m' !! p = m !! p.
+    The model joins layer directories and glif paths onto the target exactly as the code does,
+    so the theorems below carry the hypothesis [layers_safe f]: every layer directory and glif
+    file name of the font is a single plain path component.  Every font that [load] returns
+    satisfies it ([C09_loaded_fonts_safe]: since 59e280a / 8d15b4b contents.plist and
+    layercontents.plist entries are validated; this was finding F8), and the file-name algorithm
+    only produces such names (C07).  The former witness of F8 is kept as a regression input:
+    its abstraction is outside [layers_safe], and the loader now refuses it. *)
+From Norad.Model Require Import Request.
+From Norad.Proofs Require Import RequestP.
 
-(** A glif path taken from contents.plist is joined onto the layer directory unchecked: with
-    [../../outside.glif] the save writes next to the target. *)
-Definition f8_font : font_abs :=
-  Font 3 false true true (Content 1 false) None None None None None (Content 3 false)
-       [Layer "public.default" [Normal "glyphs"] (Content 4 false) None
-              [Glif [ParentDir; ParentDir; Normal "outside.glif"] (Some (Content 6 false))]]
-       (Store [] []) (Store [] []).
-Definition f8_fs : sfs := list_to_map [([], Dir); (["sb"], Dir)].
-Theorem C09_refuted_F8 : ¬ C09_full.
-Proof.
-  intros H.
-  specialize (H f8_font ["sb"; "t.ufo"] f8_fs Saved (save f8_font ["sb"; "t.ufo"] f8_fs).2 ["sb"; "outside.glif"]).
-  assert (Hw : wf_fs f8_fs).
-  { split; [reflexivity|]. intros p n Hp Hne.
-    assert (p = ["sb"]) as ->; [|reflexivity].
-    unfold f8_fs in Hp. cbn in Hp.
-    rewrite lookup_insert_Some in Hp. destruct Hp as [[<- _]|[_ Hp]]; [done|].
-    rewrite lookup_insert_Some in Hp. destruct Hp as [[<- _]|[_ Hp]]; [done|].
-    by rewrite lookup_empty in Hp. }
-  specialize (H Hw).
-  assert (Hs : save f8_font ["sb"; "t.ufo"] f8_fs = (Saved, (save f8_font ["sb"; "t.ufo"] f8_fs).2)).
-  { vm_compute. reflexivity. }
-  specialize (H Hs).
-  assert (Hu : ¬ under ["sb"; "t.ufo"] ["sb"; "outside.glif"]).
-  { intros [k Hk]. discriminate. }
-  specialize (H Hu). vm_compute in H. discriminate.
-Qed.
-Theorem C09_F8_in_class : KnownClass_F8 f8_font.
-Proof. intros H%layers_safeb_spec. vm_compute in H. discriminate. Qed.
+Theorem C09_loaded_fonts_safe :
+  ∀ (r : request) (t : path) (m : lfs) (f : lfont) (fa : font_abs),
+    val (load r t) m = inr f → abstracts fa f → layers_safe fa.
+Proof. intros r t m f fa H Ha. eapply abstracts_safe; [exact Ha|]. by eapply load_safe. Qed.
 
-(** the class is decidable, so "not in the class" is the positive statement [layers_safe]:
-    every layer directory and every glif file name is a single plain path component *)
-Theorem C09_class_decidable : ∀ f, layers_safe f ∨ KnownClass_F8 f.
-Proof. exact F8_decidable. Qed.
+Definition f8_contents : list (string * rel) :=
+  [("a", [Normal "a.glif"]); ("evil", [ParentDir; ParentDir; Normal "outside.glif"])].
+Definition f8_fs : lfs :=
+  list_to_map
+    [([], Dir); (["u"], Dir); (["u"; "metainfo.plist"], File (LMeta 3 1));
+     (["u"; "layercontents.plist"], File (LLayerContents [("public.default", [Normal "glyphs"])]));
+     (["u"; "glyphs"], Dir); (["u"; "glyphs"; "contents.plist"], File (LContents f8_contents));
+     (["u"; "glyphs"; "a.glif"], File (LGlif 1)); (["outside.glif"], File (LGlif 2))].
+Example C09_F8_rejected_at_load :
+  val (load req_all ["u"]) f8_fs = inl (LayerL "public.default" LInvalidGlyphFileName).
+Proof. vm_compute. reflexivity. Qed.
 
-(** ** Outside the class *)
+(** ** Frame and tree *)
 
 (** Nothing outside the target changes — whatever the outcome of the save, for every prior
     file system. *)
